@@ -971,22 +971,26 @@ def gen_regs(facts, write_if_changed, GEN, REPO):
         L.append(tr.helpers[h])
     for k in tr.order:
         L.append(tr.done[k][2])
-    by_reg = {}
+    ALL_TYS = ["f32", "f64", "i8", "i16", "i32", "i64", "u8", "u16", "u32", "u64"]
+    XREGS = [r for r in REGS if r != "Fallback"]
+    by_pair = {}
     for k in ok:
-        by_reg.setdefault(k[0], []).append(k)
-    L.append("(* ---- what was translated ---- *)")
-    for reg in REGS:
-        ks = by_reg.get(reg, [])
-        if reg == "Fallback":
-            L.append("Definition gen_fallback_table : list (rmeth * fb_def) := [\n  %s\n]." % ";\n  ".join(entry(k) for k in ks)
-                     if ks else "Definition gen_fallback_table : list (rmeth * fb_def) := [].")
-        else:
-            L.append("Definition gen_reg_table_%s : list gen_entry := [\n  %s\n]." % (reg, ";\n  ".join(entry(k) for k in ks))
-                     if ks else "Definition gen_reg_table_%s : list gen_entry := []." % reg)
-    L.append("Definition gen_reg_table : list gen_entry :=\n  %s." % " ++ ".join("gen_reg_table_" + r for r in REGS if r != "Fallback"))
+        by_pair.setdefault((k[0], k[1]), []).append(k)
+    L.append("(* ---- what was translated: one table per (register, element type) ---- *)")
+    ks = by_pair.get(("Fallback", None), [])
+    L.append("Definition gen_fallback_table : list (rmeth * fb_def) := [\n  %s\n]." % ";\n  ".join(entry(k) for k in ks)
+             if ks else "Definition gen_fallback_table : list (rmeth * fb_def) := [].")
+    for reg in XREGS:
+        for ty in ALL_TYS:
+            ks = by_pair.get((reg, ty), [])
+            L.append("Definition gen_reg_table_%s_%s : list gen_entry := [\n  %s\n]." % (reg, ty, ";\n  ".join(entry(k) for k in ks))
+                     if ks else "Definition gen_reg_table_%s_%s : list gen_entry := []." % (reg, ty))
+    L.append("Definition gen_reg_table : list gen_entry :=\n  %s." % "\n  ++ ".join(
+        "gen_reg_table_%s_%s" % (r, t) for r in XREGS for t in ALL_TYS))
     L.append("\nOpen Scope string_scope.")
     L.append("Definition gen_reg_methods : list (string * string * string) := [\n  %s\n]." % ";\n  ".join(
-        "(%s, %s, %s)" % (cstr(k[0]), cstr(k[1] or "T"), cstr(k[2])) for k in ok))
+        "(%s, %s, %s)" % (cstr(k[0]), cstr(k[1] or "T"), cstr(k[2]))
+        for k in by_pair.get(("Fallback", None), []) + [k for r in XREGS for t in ALL_TYS for k in by_pair.get((r, t), [])]))
     L.append("(* ---- what was NOT translated, and why (these stay tied by correspondence (B) only) ---- *)")
     L.append("Definition gen_reg_untranslated : list (string * string * string * string) := [\n  %s\n]." % ";\n  ".join(
         "(%s, %s, %s, %s)" % (cstr(k[0]), cstr(k[1] or "T"), cstr(k[2]), cstr(r)) for k, r in untranslated))
@@ -998,19 +1002,18 @@ def gen_regs(facts, write_if_changed, GEN, REPO):
         "\n    ".join(" ".join(tr.used_intr[i:i + 8]) for i in range(0, len(tr.used_intr), 8))))
     write_if_changed(os.path.join(GEN, "GenRegs.v"), "\n".join(L) + "\n")
 
-    # ---- goals: one lemma per entry, per register ----
-    for reg in REGS:
-        ks = by_reg.get(reg, [])
+    # ---- goals: one lemma per entry, one file per (register, element type) ----
+    def goals_file(title, ks, table, goal, fname):
         G = []
         G.append("(* GENERATED by tools/translate_regs.py — do not edit.  One refinement lemma per translated method of %s:\n"
-                 "   statement schema Proofs/GenRegsSpec.v ([reg_goal] / [fb_goal]), tactic Proofs/GenRegsLemmas.v. *)" % reg)
+                 "   statement schema Proofs/GenRegsSpec.v ([reg_goal] / [fb_goal]), tactic Proofs/GenRegsLemmas.v. *)" % title)
         G.append("From Coq Require Import ZArith List.")
         G.append("From CF Require Import Model.Tables Model.Prim Model.SimdApi Model.Regs Model.Intrinsics Model.RegTable Gen.GenRegs.")
         G.append("From CF Require Import Proofs.GenRegsSpec Proofs.GenRegsLemmas.")
         G.append("Import ListNotations.\nLtac unfold_gen_hook ::= unfold_gen.\n")
         names = []
         for k in ks:
-            _, ty, m = k
+            reg, ty, m = k
             name = tr.done[k][1]
             shape = SHAPE[m]
             if ty is None:
@@ -1019,13 +1022,30 @@ def gen_regs(facts, write_if_changed, GEN, REPO):
                 wrap = "GF32" if ty == "f32" else "GF64" if ty == "f64" else "GI"
                 stmt = "reg_goal %s %s %s (%s (%s %s))" % (reg, TYS[ty], METH[m], wrap, shape, name)
             G.append("Lemma %s_ok : %s.\nProof. solve_method. Qed." % (name, stmt))
-            names.append(name + "_ok")
-        body = "".join("(Forall_cons _ %s\n   " % n for n in names) + "(Forall_nil _)" + ")" * len(names)
-        if reg == "Fallback":
-            G.append("\nLemma gen_fallback_table_ok : Forall fb_entry_goal gen_fallback_table.\nProof.\n  exact %s.\nQed." % body)
-        else:
-            G.append("\nLemma gen_reg_table_%s_ok : Forall entry_goal gen_reg_table_%s.\nProof.\n  exact %s.\nQed." % (reg, reg, body))
-        write_if_changed(os.path.join(GEN, "GenRegsGoals%s.v" % reg), "\n".join(G) + "\n")
+            names.append((entry(k), name + "_ok"))
+        ety = "(rmeth * fb_def)" if goal == "fb_entry_goal" else "gen_entry"
+        body = "".join("(@Forall_cons %s %s %s _ %s\n   " % (ety, goal, e, n) for e, n in names) + "(@Forall_nil %s %s)" % (ety, goal) + ")" * len(names)
+        G.append("\nLemma %s_ok : Forall %s %s.\nProof.\n  exact %s.\nQed." % (table, goal, table, body))
+        write_if_changed(os.path.join(GEN, fname), "\n".join(G) + "\n")
+
+    goals_file("Fallback", by_pair.get(("Fallback", None), []), "gen_fallback_table", "fb_entry_goal", "GenRegsGoals_Fallback.v")
+    for reg in XREGS:
+        for ty in ALL_TYS:
+            goals_file("<%s as SimdRegister<%s>>" % (reg, ty), by_pair.get((reg, ty), []),
+                       "gen_reg_table_%s_%s" % (reg, ty), "entry_goal", "GenRegsGoals_%s_%s.v" % (reg, ty))
+    A = ["(* GENERATED by tools/translate_regs.py — do not edit.  The per-(register, type) refinement lemmas, assembled. *)",
+         "From Coq Require Import List.",
+         "From CF Require Import Model.RegTable Gen.GenRegs Proofs.GenRegsSpec.",
+         "From CF Require Import Gen.GenRegsGoals_Fallback."]
+    for reg in XREGS:
+        A.append("From CF Require Import %s." % " ".join("Gen.GenRegsGoals_%s_%s" % (reg, ty) for ty in ALL_TYS))
+    A.append("\nLemma gen_reg_table_ok : Forall entry_goal gen_reg_table.\nProof.\n  unfold gen_reg_table.")
+    A.append("  repeat (apply Forall_app; split).")
+    for reg in XREGS:
+        for ty in ALL_TYS:
+            A.append("  - exact gen_reg_table_%s_%s_ok." % (reg, ty))
+    A.append("Qed.")
+    write_if_changed(os.path.join(GEN, "GenRegsGoals.v"), "\n".join(A) + "\n")
 
     facts["regs"] = {
         "triples": len(triples), "translated": len(ok),
